@@ -4,7 +4,7 @@ from geomgen import *
 
 ID = "C08"
 THEOREM_MODULE = "SimVerif.Props.C08"
-THEOREM_MODULES = ["SimVerif.Props.C08", "SimVerif.Props.C08b", "SimVerif.Props.C08c", "SimVerif.Tie.Radius", "SimVerif.Tie.Inter", "SimVerif.Tie.Clip"]
+THEOREM_MODULES = ["SimVerif.Props.C08", "SimVerif.Props.C08b", "SimVerif.Props.C08c", "SimVerif.Tie.Radius", "SimVerif.Tie.Inter", "SimVerif.Tie.Clip", "SimVerif.Tie.Cache"]
 NONTRIVIAL_FLAGS = {"overlap", "rotated", "nested", "identical", "near-disjoint", "axis-aligned"}
 RULE = ("`geom inter u1 u2` (10% as `interstale`: both boxes carry a vertex cache generated under another geometry): pairs in general position, overlapping, nested, identical, touching (shared edge/corner, exact coordinates), edge-sharing in a rotated frame, far apart, "
         "large coordinates, tiny boxes; angles None, 0, k*pi/2, |angle|>2pi; the executor evaluates too_far, intersection and IoU in both argument orders and dist_in_2r; "
@@ -34,3 +34,8 @@ def generate(rng, tier):
 def shape_key(case, results):
     flags = results[0].flags if results else []
     return "inter-" + ("rot" if "rotated" in flags else "aa")
+
+SOURCE_TIE = "Source-level tie by proof (Tie/Radius, Tie/Inter, Tie/Clip, Tie/Cache): get_radius, area, too_far, is_inside, compute_intersection, both loops of sutherland_hodgman_clip, the IoU formulas, and Universal2DBox::intersection with its clone / vertex-cache handling as regenerated from the source equal the model's functions; the reported intersection never reads the caches of its arguments."
+LEVEL_TEXT = LEVEL_TEXT + " " + SOURCE_TIE
+TRUSTED_BASE = TRUSTED_BASE + ["translator/kernels.py + rustexpr.py (reader of the Rust subset, per-function tables) for the functions named in SOURCE_TIE; generated definitions are proof obligations (Tie modules) on every run"]
+TECHNIQUE = TECHNIQUE + "; model regenerated from the source by a translator for the functions of SOURCE_TIE, tied by proof"
